@@ -43,7 +43,7 @@ func (c11) Gen(rng *simrt.Rand, tier string, run int) interface{} {
 		}
 		f := simunix.Fault{Kind: "errno", Errno: int(simunix.EIO), Op: "pread", At: rng.Intn(total), Sticky: rng.Chance(1, 3)}
 		if rng.Chance(1, 3) {
-			f.Kind, f.Errno, f.Short = "short", 0, rng.Pick(0, 512, 4095)
+			f.Kind, f.Errno, f.Short = "short", 0, rng.Pick(0, 512, 4095, 4096, 8192)
 		}
 		p.Faults = []simunix.Fault{f}
 		return p
@@ -116,8 +116,8 @@ var faultMenu = map[string][]simunix.Fault{
 	"openat":    {{Kind: "errno", Errno: int(simunix.EACCES)}, {Kind: "errno", Errno: int(simunix.EMFILE)}},
 	"fstat":     {{Kind: "errno", Errno: int(simunix.EIO)}},
 	"ftruncate": {{Kind: "errno", Errno: int(simunix.EIO)}, {Kind: "errno", Errno: int(simunix.ENOSPC)}},
-	"pread":     {{Kind: "errno", Errno: int(simunix.EIO)}, {Kind: "short", Short: 0}, {Kind: "short", Short: 512}},
-	"pwrite":    {{Kind: "errno", Errno: int(simunix.EIO)}, {Kind: "errno", Errno: int(simunix.ENOSPC)}, {Kind: "short", Short: 512}, {Kind: "short", Short: 0}},
+	"pread":     {{Kind: "errno", Errno: int(simunix.EIO)}, {Kind: "short", Short: 0}, {Kind: "short", Short: 512}, {Kind: "short", Short: 4096}, {Kind: "short", Short: 8192}},
+	"pwrite":    {{Kind: "errno", Errno: int(simunix.EIO)}, {Kind: "errno", Errno: int(simunix.ENOSPC)}, {Kind: "short", Short: 512}, {Kind: "short", Short: 0}, {Kind: "short", Short: 4096}},
 	"fsync":     {{Kind: "errno", Errno: int(simunix.EIO)}, {Kind: "errno", Errno: int(simunix.EINTR)}},
 	"close":     {{Kind: "errno", Errno: int(simunix.EIO)}},
 	"fallocate": {{Kind: "errno", Errno: int(simunix.EIO)}, {Kind: "errno", Errno: int(simunix.ENOSPC)}, {Kind: "errno", Errno: int(simunix.EOPNOTSUPP)}},
